@@ -122,13 +122,18 @@ func appendPath(p []int, i int) []int {
 
 func (ex *Exec) phi(fr *frame, in *ssa.Phi) Value {
 	b := in.Block()
-	if fr.cmcond != nil {
-		iT, iF := predIndex(b, fr.cmT), predIndex(b, fr.cmF)
-		a, c := ex.get(fr, in.Edges[iT]), ex.get(fr, in.Edges[iF])
-		if a == c {
-			return a
+	if fr.cmerge != nil {
+		var res Value
+		for i := len(fr.cmerge) - 1; i >= 0; i-- {
+			e := fr.cmerge[i]
+			v := ex.get(fr, in.Edges[predIndex(b, e.pred)])
+			if res == nil || v == res {
+				res = v
+				continue
+			}
+			res = ex.B.Ite(e.cond, v.(*Term), res.(*Term))
 		}
-		return ex.B.Ite(fr.cmcond, a.(*Term), c.(*Term))
+		return res
 	}
 	for i, p := range b.Preds {
 		if p == fr.prev {
